@@ -310,6 +310,13 @@ func c02KeyAtoms(lits []string, full bool) []c02Atom {
 				add(lib.In(lib.Key(), lib.Str(a), lib.Str(b)), a, b)
 				if full {
 					add(lib.In(lib.Key(), lib.Str(b), lib.Str(a), lib.Str(b)), a, b)
+					// lists that mix literals with computed elements (the
+					// planner cannot pin those to the literal ones)
+					add(lib.In(lib.Key(), lib.Str(a), lib.Bin("+", lib.Str(b), lib.Str(""))), a, b)
+					add(lib.In(lib.Key(), lib.Call("lower", lib.Str(strings.ToUpper(a))), lib.Str(b)), a, b)
+					if len(a)+len(b) <= 3 {
+						add(lib.In(lib.Key(), lib.Str(b), lib.Bin("+", lib.Str(a), lib.Str(b)), lib.Str(a)), a+b)
+					}
 				}
 			}
 			if a < b {
